@@ -102,12 +102,15 @@ func runC13(c *core.Ctx) {
 	guardedBy(c, lc, el, "C13.table", guardedField{Rel: "bus", Struct: "signalHandler", Field: "signals", Mutex: "signalsMutex",
 		Reason: "registrations are added/removed by the mailbox goroutine, by disconnect closers and read by emitters"})
 	ruleSignalTable(c)
+	ruleInferredGuards(c, lc, el, "C13.table")
 
 	c.Doc("C13.refcount", "remote register on 0→1 and unregister on 1→0 of the local count, same key; cancel always cancels locally", 3)
 	ruleRefcount(c)
 
 	c.Doc("C13.forwarding", "one forwarding goroutine per subscription, no go in the loop, channel closed once per exit", 6)
 	ruleForwarders(c, a)
+	c.Doc("C13.sequential", "UpdateSignal writes to every recipient itself, in order (no goroutine per recipient or per emission)", 1)
+	ruleEmitSequential(c, "C13.sequential")
 	// a leaving subscriber does not disturb the others (rule shared with C11)
 	c.Doc("C11.subscriptions", "Subscribe closes events once per exit and removes only its own, still registered handler", 3)
 	ruleSubscriptionsClose(c, a)
@@ -559,6 +562,31 @@ func ruleRefcount(c *core.Ctx) {
 	}
 	check("RegisterEvent", 1, 1, "bus.proxy.SubscribeID/register")
 	check("UnregisterEvent", -1, 0, "bus.proxy.SubscribeID/unregister")
+	// every decrement of the count decides: wherever a subscriber leaves, the one
+	// that brings the count to 0 unregisters (a second cancel function that only
+	// decrements leaves the remote registration behind for good)
+	for i := range states {
+		s := &states[i]
+		if s.delta != -1 {
+			continue
+		}
+		isCount := func(v ssa.Value) bool { return core.Canon(v) == ssa.Value(s.call) }
+		isZero := func(v ssa.Value) bool { k, ok := core.ConstInt(v); return ok && k == 0 }
+		decides := false
+		for _, call := range core.Calls(s.fn) {
+			name := ""
+			if sc := core.StaticCallee(call); sc != nil {
+				name = sc.Name()
+			} else if cc := call.Common(); cc.IsInvoke() {
+				name = cc.Method.Name()
+			}
+			if name == "UnregisterEvent" && core.Guarded(s.fn, call.(ssa.Instruction), core.Eq(isCount, isZero)) {
+				decides = true
+			}
+		}
+		c.Check(decides, rule, fmt.Sprintf("bus.proxy.SubscribeID/decrement@%s", core.FuncKey(s.fn)), s.call.Pos(), "the decrement that reaches 0 unregisters",
+			"the subscriber count is decremented without unregistering when it reaches 0: when this subscriber is the last one to leave, the service keeps the registration, the next subscription registers a second one and receives every event twice")
+	}
 	// same key for +1 and -1
 	var kp, km string
 	for _, s := range states {
